@@ -230,6 +230,7 @@ impl<Sink: TokenSink> Tokenizer<Sink> {
                 if c == '\u{feff}' {
                     input.next();
                 }
+                self.discard_bom.set(false);
             } else {
                 return TokenizerResult::Done;
             }
